@@ -29,6 +29,7 @@ let rec zt_of_pos (p : M.positive) : Z.t =
 let zt_of_z (z : M.z) : Z.t =
   match z with M.Z0 -> Z.zero | M.Zpos p -> zt_of_pos p | M.Zneg p -> Z.neg (zt_of_pos p)
 
+let rec nat_of_int n = if n <= 0 then M.O else M.S (nat_of_int (n - 1))
 let z_of_string s = z_of_zt (Z.of_string s)
 let z_of_int i = z_of_zt (Z.of_int i)
 let string_of_z z = Z.to_string (zt_of_z z)
@@ -119,6 +120,101 @@ let suite_ranges t v =
   let rec anyp = function [] -> false | p :: r -> List.exists (touches p) r || anyp r in
   v.nontrivial <- n >= 2 && anyp parts
 
+
+(* ============================ suite K : chunks and payloads (C11, C07) ======= *)
+let suite_chunk t v =
+  let chunk = nz t in
+  let cap = nz t in
+  let nf = ni t in
+  let files = times nf (fun () ->
+    let size = nz t in
+    let nrec = ni t in
+    let rec_ = if nrec < 0 then None else Some (times nrec (fun () -> let b = nz t in let e = nz t in (b, e))) in
+    (size, rec_)) in
+  expect t "=";
+  let ilefts = times nf (fun () ->
+    let nl = ni t in
+    if nl < 0 then None else Some (times nl (fun () -> let b = nz t in let e = nz t in (b, e)))) in
+  let nch = ni t in
+  let ichunks = times nch (fun () -> let f = ni t in let o = nz t in let l = nz t in let s = nz t in (f, o, l, s)) in
+  let npay = ni t in
+  let ipays = times npay (fun () ->
+    let np = ni t in times np (fun () -> let f = ni t in let b = nz t in let e = nz t in (f, b, e))) in
+  let zeq a b = M.Z.eqb a b in
+  let range_list_eq a b = List.length a = List.length b && List.for_all2 (fun (x1, y1) (x2, y2) -> zeq x1 x2 && zeq y1 y2) a b in
+  let fuel = nch + 10 in
+  let in_d = ref (M.Z.leb (z_of_int 10) cap) in
+  (* model: per file the plan and the chunks *)
+  let mplans = List.mapi (fun i (size, rec_) ->
+    match rec_ with
+    | None -> (None, M.chunks_plain (nat_of_int fuel) size chunk M.Z0, size)
+    | Some r ->
+        let sorted = M.sort_ranges r in
+        let okrec = M.sorted_disjoint_b sorted
+                    && (match sorted with [] -> true | (b, _) :: _ -> M.Z.leb M.Z0 b)
+                    && List.for_all (fun (_, e) -> M.Z.leb e size) sorted in
+        if not okrec then in_d := false;
+        let left = M.missing r size in
+        ignore i;
+        (Some left, (if left = [] then Some [] else M.chunks_rec (nat_of_int fuel) left M.Z0 chunk), M.send_size left)) files in
+  (* compare the resumption plan *)
+  List.iteri (fun i ((ml, _, _), il) ->
+    match ml, il with
+    | None, None -> ()
+    | Some a, Some b -> if not (range_list_eq a b) then diff v ("left@" ^ string_of_int i)
+    | _ -> diff v ("left-kind@" ^ string_of_int i)) (List.combine mplans ilefts);
+  (* model chunk sequence = files in index order *)
+  let mchunks = List.concat (List.mapi (fun i (_, cs, send) ->
+    match cs with
+    | None -> diff v ("model-out-of-fuel@" ^ string_of_int i); []
+    | Some l -> List.map (fun (o, len) -> (i, o, len, send)) l) mplans) in
+  let chunk_eq (f1, o1, l1, s1) (f2, o2, l2, s2) = f1 = f2 && zeq o1 o2 && zeq l1 l2 && zeq s1 s2 in
+  if not (List.length mchunks = List.length ichunks && List.for_all2 chunk_eq mchunks ichunks) then diff v "chunks";
+  (* binner: flushes are taken from the observation (an idle flush is legal between chunks) *)
+  let starts = List.filter_map (function [] -> None | (f, b, _) :: _ -> Some (f, b)) (match ipays with [] -> [] | _ :: r -> r) in
+  let evs = List.map (fun (f, o, l, _) ->
+    (List.exists (fun (f', b) -> f' = f && zeq b o) starts, ((z_of_int f, o), l))) ichunks in
+  let mst = M.pack cap M.init_bstate evs in
+  let mpays, mdropped = match mst with
+    | None -> diff v "model-pack-out-of-fuel"; ([], false)
+    | Some st -> (M.payloads st, M.dropped st <> []) in
+  let part_eq ((f1, b1), e1) (f2, b2, e2) = int_of_z f1 = f2 && zeq b1 b2 && zeq e1 e2 in
+  if not (List.length mpays = List.length ipays &&
+          List.for_all2 (fun mp ip -> List.length mp = List.length ip && List.for_all2 part_eq mp ip) mpays ipays)
+  then diff v "payloads";
+  (* ---- oracles on the implementation's observations ---- *)
+  List.iteri (fun i ((size, rec_), (ml, _, _)) ->
+    let mine = List.filter_map (fun (f, o, l, _) -> if f = i then Some (o, l) else None) ichunks in
+    (match rec_, ml with
+     | None, _ ->
+         if not (M.tiles_from_b M.Z0 size mine) then oracle v "chunks_not_tiling_file" false
+     | Some _, Some left ->
+         if !in_d || (M.sorted_disjoint_b left) then begin
+           if not (M.tiles_ranges_b (nat_of_int (List.length mine + List.length left + 2)) left mine) then
+             oracle v "chunks_not_tiling_missing" false
+         end else begin
+           (* overlapping record: "missing" has an inverted range; the chunks cannot tile *)
+           let mmine = List.filter_map (fun (f, o, l, _) -> if f = i then Some (o, l) else None) mchunks in
+           if List.exists (fun (_, l) -> M.Z.leb l M.Z0) mine then
+             oracle v "negative_chunk_overlapping_record" (List.exists (fun (_, l) -> M.Z.leb l M.Z0) mmine)
+         end
+     | _ -> ());
+    if M.Z.ltb M.Z0 chunk && not (M.all_le_b chunk mine) then oracle v "chunk_too_large" false;
+    (* parts of this file, in transmission order, tile its chunks without crossing them *)
+    let myparts = List.concat (List.map (fun p -> List.filter_map (fun (f, b, e) -> if f = i then Some (b, M.Z.sub e b) else None) p) ipays) in
+    let chunk_ranges = List.map (fun (o, l) -> (o, M.Z.add o l)) mine in
+    if List.for_all (fun (_, l) -> M.Z.ltb M.Z0 l) mine then
+      if not (M.tiles_ranges_b (nat_of_int (List.length myparts + List.length mine + 2)) chunk_ranges myparts) then
+        oracle v (if M.Z.ltb cap (z_of_int 10) then "chunk_dropped_zero_slack" else "parts_not_tiling_chunks")
+          (M.Z.ltb cap (z_of_int 10) && mdropped && not (List.mem "payloads" v.diffs))
+    ) (List.combine files mplans);
+  let allowance = M.Z.add cap (M.fluff_of cap) in
+  List.iter (fun p ->
+    let bytes = List.fold_left (fun acc (_, b, e) -> M.Z.add acc (M.Z.sub e b)) M.Z0 p in
+    if M.Z.ltb allowance bytes then oracle v "payload_over_allowance" false) ipays;
+  v.cls <- (if !in_d then "D" else "F");
+  v.nontrivial <- (nch > nf) || (List.length ipays > 1) || List.exists (fun p -> List.length p > 1) ipays
+
 (* ============================ dispatch ====================================== *)
 let run_line line =
   let t = mk line in
@@ -126,6 +222,7 @@ let run_line line =
   (try
      (match next t with
       | "R" -> suite_ranges t v
+      | "K" -> suite_chunk t v
       | s -> raise (Malformed ("unknown suite " ^ s)))
    with
    | Malformed s -> diff v ("malformed:" ^ s)
